@@ -205,7 +205,7 @@ Inv_C18_IsMedian(DD, b) ==
         exact(v) == v > -268435456 /\ v < 268435456
     IN  IF Len(b.fws) = 0 THEN TRUE
         ELSE IF exact(br[1]) /\ exact(br[2])
-             THEN (~b.big) /\ b.ts = HalfTrunc(br[1] + br[2])
+             THEN (~b.big) /\ b.ts = (br[1] + br[2]) \div 2
              ELSE br[1] <= b.ts /\ b.ts <= br[2]
 
 \* C18: with fewer than a third of the round's validators lying, the block
